@@ -22,6 +22,7 @@
   digest at every position" (`decode_encode_identical` spells that out on `elements`).
 -/
 import EnvVerif.Lemmas.CodecLemmas
+import EnvVerif.Lemmas.UrLemmas
 namespace EnvVerif
 open Env
 
@@ -128,6 +129,47 @@ theorem encode_injective (e₁ e₂ : Env) (h₁ : Inv h e₁) (s₁ : EncShape 
   rw [heq, r₂] at r₁
   injection r₁ with r₁
   exact r₁.symm
+
+/-! ### the UR text form ("or its UR string") -/
+
+/-- C05, UR clause: `Envelope::from_ur_string (e.ur_string()) = e`, for every envelope the library
+produces.  The bytewords table, the CRC-32 and the `ur:type/` framing are the concrete ones
+(Model/Ur.lean); nothing is assumed about them. -/
+theorem envOfUrString_urStringOf (e : Env) (hi : Inv h e) (hs : EncShape e) (he : Encodable e) :
+    envOfUrString h (urStringOf e) = .ok e := by
+  have hp := Ur.urParse_urString envelopeType (cborOf e).enc (by decide)
+  simp only [envOfUrString, urStringOf, hp]
+  have hne : (envelopeType != envelopeType) = false := by decide
+  simp only [hne, Bool.false_eq_true, if_false, Cbor.decEncLaw _ (cborOf_valid e he hs)]
+  exact envOfCbor_cborOf h e hi hs
+
+example : envOfUrString CodecEx.toyH (urStringOf CodecEx.sample) = .ok CodecEx.sample :=
+  envOfUrString_urStringOf _ _ CodecEx.sample_inv CodecEx.sample_encShape CodecEx.sample_encodable
+
+/-- the upper-case form (`UR::qr_string`, what a QR code carries) reads back to the same envelope:
+`from_ur_string` lower-cases its input first -/
+theorem envOfUrString_upper (e : Env) (hi : Inv h e) (hs : EncShape e) (he : Encodable e) :
+    envOfUrString h ((urStringOf e).map Ur.upperAscii) = .ok e := by
+  simp only [envOfUrString, Ur.urParse_upper]
+  exact envOfUrString_urStringOf h e hi hs he
+
+/-- the UR string determines the envelope: two envelopes the library produces with the same UR
+string are the same envelope -/
+theorem urStringOf_injective (e₁ e₂ : Env) (h₁ : Inv h e₁) (s₁ : EncShape e₁) (c₁ : Encodable e₁)
+    (h₂ : Inv h e₂) (s₂ : EncShape e₂) (c₂ : Encodable e₂) (heq : urStringOf e₁ = urStringOf e₂) :
+    e₁ = e₂ := by
+  have r₁ := envOfUrString_urStringOf h e₁ h₁ s₁ c₁
+  have r₂ := envOfUrString_urStringOf h e₂ h₂ s₂ c₂
+  rw [heq, r₂] at r₁
+  injection r₁ with r₁
+  exact r₁.symm
+
+/-- a UR of another type is refused whatever it carries -/
+theorem envOfUrString_wrong_type (ty : Ur.Text) (data : Bytes) (hty : ty.all Ur.isTypeChar = true)
+    (hne : ty ≠ envelopeType) : envOfUrString h (Ur.urString ty data) = .err "dep:ur-type" := by
+  have hp := Ur.urParse_urString ty data hty
+  have : (ty != envelopeType) = true := by simpa using hne
+  simp only [envOfUrString, hp, this, if_true]
 
 end
 end EnvVerif
